@@ -15,6 +15,10 @@ TraceStep ==
          [] e.op = "bytereader" ->
               /\ ByteReads(e.script)
               /\ last'.res.bytes = e.bytes /\ last'.res.err = e.err
+         [] e.op = "steal" ->
+              /\ Steal(e.script, e.reused)
+              /\ Len(last'.res) = e.n
+              /\ (last'.res = Seg(1, Content(UpToErr(e.script)))) = e.exact
 TraceSpec == TraceInit /\ [][TraceStep]_<<vars, l>>
 Mark == (l > TLCGet(1) => TLCSet(1, l)) /\ TRUE
 TraceAccepted == PrintT(<<"HIGHWATER", TLCGet(1)>>) /\ TLCGet(1) = Len(Trace) + 1
